@@ -177,6 +177,13 @@ func (u *Upstream) closeWithError(ctx context.Context, causeError error, opts ..
 	u.wireConnMu.Lock()
 	wireConn := u.wireConn // a resume may be replacing it
 	u.wireConnMu.Unlock()
+	if u.closeTimeout > 0 {
+		// the close timeout bounds the close exchange as it bounds the drain: a caller without a deadline
+		// does not wait forever for a close response that never comes
+		var cancel context.CancelFunc
+		ctx, cancel = context.WithTimeout(ctx, u.closeTimeout)
+		defer cancel()
+	}
 	resp, err := wireConn.SendUpstreamCloseRequest(ctx, &message.UpstreamCloseRequest{
 		StreamID:            u.ID,
 		TotalDataPoints:     state.TotalDataPoints,
